@@ -3,6 +3,7 @@ import GoframeModel.Spec.Select
 import GoframeModel.Spec.Join
 import GoframeModel.Spec.SortDedup
 import GoframeModel.Spec.Invalid
+import GoframeModel.Std.Csv
 /-
   `seq` engine: a history of public operations over a pool of live frames. After every step the
   harness dumps every live frame; the driver
@@ -174,7 +175,31 @@ partial def seqSteps (ω : Oracle) (n : Nat) (idx : Nat) (model impl : Pool) (v 
     if dump.any (fun d => !d.same) then
       v := { v with c02 := firstFail v.c02 s!"fail@{idx}:query-changed-a-frame" }
     return ← seqSteps ω n (idx + 1) model impl { v with okSteps := v.okSteps + 1 }
-  if kindTok != "OP" then throw s!"expected OP or QY, got {kindTok}"
+  if kindTok == "CS" then
+    -- CSV export followed by import inside a history: the imported frame joins the pool
+    let t ← pNat
+    let bytes ← pStr
+    expect "R"
+    let status ← next
+    let dump ← pDump impl
+    let impl' : Pool := dump.map (·.frame)
+    let f := impl.getD t []
+    let mut v := v
+    if status == "panic" then v := { v with c20 := firstFail v.c20 s!"fail@{idx}:panic" }
+    if (List.range impl.length).any (fun i => match dump[i]? with | some d => !d.same | none => true) then
+      v := { v with c02 := firstFail v.c02 s!"fail@{idx}:csv-round-trip-changed-a-frame" }
+    for d in dump do
+      if !d.same && !d.frame.rect? then v := { v with c01 := firstFail v.c01 s!"fail@{idx}:not-rectangular" }
+    if v.corr == "ok" then
+      if Frame.toCSV ω f != bytes then v := { v with corr := s!"fail@{idx}:csv-bytes-differ" }
+      else match Frame.fromCSV ω bytes, status with
+        | .ok m, "ok" =>
+          if !(impl'.length == impl.length + 1 && frameApprox m (impl'.getLast?.getD [])) then
+            v := { v with corr := s!"fail@{idx}:csv-import-differs" }
+        | .err _, "err" => pure ()
+        | _, _ => v := { v with corr := s!"fail@{idx}:csv-status" }
+    return ← seqSteps ω n (idx + 1) impl' impl' { v with okSteps := v.okSteps + (if status == "ok" then 1 else 0) }
+  if kindTok != "OP" then throw s!"expected OP, QY or CS, got {kindTok}"
   let op ← pOp
   expect "R"
   let status ← next
